@@ -107,4 +107,20 @@ CLAIMS = {
                 text="Threads.tla: all interleavings of 3-4 clients give sequential results, the pool is immutable, the regex cell is initialised once, no deadlock, all clients finish. Real code: a separate crate asserts Send + Sync for FlatEx/DeepEx/FlatExVal at compile time; fresh 16-thread processes race on first-use parsing and evaluate shared expressions, every event must equal the sequential function of its arguments (reference semantics for the symbolic type, bit-identical sequential re-run for f64), structural dumps before/after are identical.",
                 note="Real schedules are sampled, not enumerated; the every-schedule claim rests on the type checker plus the validated absence of state change. Trusted: TLC, the reference spec, std::thread."),
 }
+# additions made while strengthening the checks against seeded changes (see seeded/INDEX.md)
+EXTRA = {
+    "C03": "Direction B includes one-level chains of up to 66 operands with priority ties.",
+    "C04": "Derived lists: sessions over a pool of 40 names (merged lists beyond the inline capacity of 16) through operator application, substitution and conversion.",
+    "C06": "Value-typed texts with array literals and array-valued variables; long texts without nesting (20-500 operands) through parse, conversions and partial, one process per case: known finding F11 (stack exhaustion from ~100 operands in FlatEx::partial and flat->deep->flat) is reported, any other abort is a violation.",
+    "C12": "Text-level direction A: every enumerated tree x rendering over T8 and over the adversarial-name table TAdv printed from the deep form three ways and parsed back; DeepImpl.Unparse (transcription of unparse_raw) is model-checked (UnparseRefines) and the printer of the pinned snapshot must violate the invariant.",
+    "C14": "Chains are capped at 250 operands (TLC's JSON reader nests at most 255 deep); 6000 random schedules of up to 200 operands on the real trackers are judged by Tracker.tla.",
+    "C15": "Every subset of absent variables is additionally listed without occurring (built as e + g*0 through the deep form); one variable occurring up to 300 times.",
+    "C17": "The catalogue contains the floats MAX+1, MAX+1.5, MIN-1 (must be errors under to_int) and MIN-0.5 (must be MIN) for every width.",
+    "C18": "Two routes: parse_val(text).partial(k) and DeepEx::parse(text).partial(k); half of the conditions without parentheses around their operands.",
+    "C19": "Special values of `^` follow the IEEE 754 / C99 table of pow (signed zeros, infinities, infinite exponents, exact sign of zero).",
+    "C20": "Two operator tables of the same size over the same data type in one process (alternating and forced first-use order), shared expressions of 70 and 135 operands evaluated in opposite orders, a shared deep expression with 60 nesting levels evaluated 400 times per thread behind a barrier.",
+    "C01": "Model conformance is also step level: the compile decisions and eval_binary steps FlatImpl predicts are compared with the hook events of the real run (MODEL-DRIFT, never a violation).",
+}
+for _k, _v in EXTRA.items():
+    CLAIMS[_k]["text"] = CLAIMS[_k]["text"].rstrip() + " " + _v
 NOT_YET = {}
